@@ -24,6 +24,32 @@ from cherrypy.lib import caching as _caching
 from cherrypy.lib import httputil as _httputil
 
 _INIT = {'done': False, 'tmp': None}
+CLOCK_BASE = 1000000000
+
+
+class FakeTime(object):
+    """Logical clock installed as the module global `time` of cherrypy._cprequest (Response.time) and
+    cherrypy.lib.caching (the sweeper).  `sleep` parks the cache's sweeper thread for good, so that expiry is
+    decided by caching.get's own age test only (deterministic)."""
+
+    def __init__(self):
+        self.now = float(CLOCK_BASE)
+
+    def time(self):
+        return self.now
+
+    def sleep(self, secs):
+        import threading
+        threading.Event().wait()
+
+    def __getattr__(self, name):
+        import time as _t
+        return getattr(_t, name)
+
+
+CLOCK = FakeTime()
+CC = {'-': None, 'nocache': ('Cache-Control', 'no-cache'), 'pragma': ('Pragma', 'no-cache'),
+      'nostore': ('Cache-Control', 'no-store'), 'badmaxage': ('Cache-Control', 'max-age=abc')}
 CUR = {}
 REC = {}
 
@@ -117,7 +143,10 @@ class Root(object):
     def index(self, **kw):
         c = CUR['case']
         resp = cherrypy.serving.response
-        kind, chunks = CUR['body']
+        gen = CUR['gen']
+        CUR['gen'] = gen + 1
+        kind, chunks = CUR['bodies'][min(gen, len(CUR['bodies']) - 1)]
+        CUR['body'] = (kind, chunks)
         resp.headers['Content-Type'] = CTS[c.get('ct', 'html')]
         if c.get('hstream'):
             resp.stream = True
@@ -227,6 +256,8 @@ def init():
     atexit.register(shutil.rmtree, _INIT['tmp'], True)
     # one process-wide cache object (its constructor starts a sweeper thread): cleared per case
     cherrypy.tools.c06probe = cherrypy.Tool('before_finalize', _probe, priority=60)
+    cherrypy._cprequest.time = CLOCK
+    _caching.time = CLOCK
     cherrypy._cache = _caching.MemoryCache()
     cherrypy._cache.antistampede_timeout = None
     _INIT['done'] = True
@@ -303,6 +334,11 @@ def environ_for(req):
             env[hdr] = v
     if req.get('range', '-') != '-':
         env['HTTP_RANGE'] = req['range']
+    cc = req.get('cc', '-')
+    if cc.startswith('maxage'):
+        env['HTTP_CACHE_CONTROL'] = 'max-age=' + cc[6:]
+    elif CC[cc] is not None:
+        env['HTTP_' + CC[cc][0].upper().replace('-', '_')] = CC[cc][1]
     return env
 
 
@@ -393,7 +429,8 @@ def run_case(case, upto=None, override_last_method=None):
     """
     init()
     CUR['case'] = case
-    CUR['body'] = parse_body(case['body'])
+    CUR['bodies'] = [parse_body(b) for b in case['body'].split('|')]
+    CUR['body'] = CUR['bodies'][0]
     reqs = [dict(r) for r in case['reqs']]
     if upto is not None:
         reqs = reqs[:upto]
@@ -416,16 +453,18 @@ def run_case(case, upto=None, override_last_method=None):
 
 def _run(case, reqs):
     cherrypy._cache.clear()
+    CUR['gen'] = 0
     app = make_app(case)
     out = []
     for r in reqs:
+        CLOCK.now = float(CLOCK_BASE + int(r.get('t', 0)))
         out.append(observe(app, r))
     return out
 
 
 def ranges_for(case, req):
     """The real get_ranges result for a static body (a parameter of the model)."""
-    kind, chunks = parse_body(case['body'])
+    kind, chunks = parse_body(case['body'].split('|')[0])
     size = sum(len(v) for k, v in chunks if k == 'b')
     if req.get('range', '-') == '-':
         return None
